@@ -23,21 +23,25 @@ VALS = [("x", "x"), ("1", 1), ('"q r"', "q r"), ("(1, 2)", [1, 2]),
         ("1.5 <m>", ("Q", 1.5, "m")), ("2001-01-01", dt.date(2001, 1, 1)),
         ("NULL", None), ("{a, b}", ("SET", ["a", "b"])), ("-7", -7), ("'s'", "s")]
 FEATURES = {
-    "eq": ["same", "ownline", "valuenext"],     # where '=' / the value sit relative to the name
-    "gap": ["bare", "semi", "hash", "comment"],  # what follows the '=' of an emptied parameter
+    "eq": ["same", "ownline", "valuenext", "commented"],   # where '=' / the value sit relative to the name
+    "gap": ["bare", "semi", "hash", "comment", "hasheq"],   # what follows the '=' of an emptied parameter
     "delim": [False, True],                     # ';' after statements that have a value
     "nl": ["\n", "\r\n"],
-    "between": ["none", "blank", "comment"],    # lines between statements
+    "between": ["none", "blank", "comment", "hashline"],    # lines between statements
     "end": [True, False],                       # END statement present
     "pack": [False, True],                      # two statements per physical line
     "indent": ["spaces", "tabs"],
+    "trail": ["none", "comment"],               # a comment after every statement that has a value
+    "eqfrom": [0, 1],                           # the 'eq' variation applies from this statement on
 }
 CANON = {k: v[0] for k, v in FEATURES.items()}
 
 
 PAIRS = [("gap", "delim"), ("eq", "end"), ("eq", "gap"), ("end", "gap"), ("between", "gap"), ("gap", "pack"),
-         ("end", "nl"), ("eq", "nl")]
+         ("end", "nl"), ("eq", "nl"), ("eq", "between"), ("between", "delim"), ("eq", "delim")]
+PAIRS += [("eq", "trail"), ("gap", "trail"), ("delim", "trail"), ("eq", "eqfrom")]
 PAIRS = [tuple(sorted(p)) for p in PAIRS]
+TRIPLES = [("eq", "eqfrom", "trail"), ("delim", "eq", "eqfrom")]
 
 
 def layouts(dev):
@@ -53,6 +57,14 @@ def layouts(dev):
                 lay = dict(CANON)
                 lay.update(dict(zip(pos, alt)))
                 out.append(lay)
+    # a few named three-feature combinations (a comment before '=' only from the second
+    # statement on, after a first statement that ends with a comment / a delimiter)
+    for pos in TRIPLES:
+        for alt in itertools.product(*[FEATURES[p][1:] for p in pos]):
+            lay = dict(CANON)
+            lay.update(dict(zip(pos, alt)))
+            if lay not in out:
+                out.append(lay)
     return out
 
 
@@ -66,7 +78,7 @@ def docs(quick):
     for n in (1, 2, 3):
         dom = vr if n < 3 else (0, 1, 3, 4)
         if quick:
-            dom = {1: vr, 2: (0, 1, 2, 3, 4), 3: (0, 1, 3)}[n]
+            dom = {1: vr, 2: (0, 1, 2, 3, 4), 3: (0, 1, 2)}[n]
         for vs in itertools.product(dom, repeat=n):
             yield [["A", names[i], v] for i, v in enumerate(vs)]
     core = (0, 1, 2) if not quick else (0, 1)
@@ -97,6 +109,7 @@ def render(doc, empty, lay):
     records the character offset of the '=' of every emptied parameter; its
     1-based line is counted on the finished text."""
     stmts_out = []     # list of statement strings (may contain newlines), with marks
+    count = [0]
     marks = []         # (statement index, offset of '=' inside the statement, tree slot)
     nl = lay["nl"]
 
@@ -107,17 +120,21 @@ def render(doc, empty, lay):
             ind = ("  " * level) if lay["indent"] == "spaces" else ("\t" * (level + 1))
             if s[0] == "A":
                 name, (vtext, vexp) = s[1], VALS[s[2]]
-                head = ind + name + (nl + ind + "=" if lay["eq"] == "ownline" else " =")
+                eq = lay["eq"] if count[0] >= lay["eqfrom"] else "same"
+                count[0] += 1
+                head = ind + name + (nl + ind + "=" if eq == "ownline" else
+                                     " /* c */ =" if eq == "commented" else " =")
                 if p in empty:
                     tail = {"bare": "", "semi": " ;", "hash": "   # no value given",
-                            "comment": " /* none */"}[lay["gap"]]
+                            "comment": " /* none */", "hasheq": "  # value = none"}[lay["gap"]]
                     slot = [name, None]
                     tree.append(slot)
                     marks.append((len(stmts_out), len(head) - 1, slot))
                     stmts_out.append(head + tail)
                 else:
-                    sep = (nl + ind + "    ") if lay["eq"] == "valuenext" else " "
-                    stmts_out.append(head + sep + vtext + (";" if lay["delim"] else ""))
+                    sep = (nl + ind + "    ") if eq == "valuenext" else " "
+                    stmts_out.append(head + sep + vtext + (";" if lay["delim"] else "") +
+                                     (" /* t */" if lay["trail"] == "comment" else ""))
                     tree.append([name, vexp])
             else:
                 stmts_out.append(ind + s[1] + " = " + s[2] + (";" if lay["delim"] else ""))
@@ -145,6 +162,8 @@ def render(doc, empty, lay):
                 sep += nl
             elif lay["between"] == "comment":
                 sep += "/* note = 1 */" + nl
+            elif lay["between"] == "hashline":
+                sep += "# note = 1" + nl
             if last and not lay["end"] and "#" not in st:
                 sep = ""
         pieces.append(sep)
